@@ -125,6 +125,12 @@ Definition tables_ok : bool :=
   && sortedb srgb_z
   (* all linear-light values lie in [0, 1] *)
   && forallb (fun x => (0 <=? x) && (x <=? color_den)) (srgb_z ++ cube_z ++ greys_z)
+  (* the four levels are sent as the system colours 0, 8, 7, 15 (SGR 30 / 90 / 37 / 97): in xterm's
+     default palette these are (0,0,0), (127,127,127), (229,229,229), (255,255,255), of strictly
+     increasing luma, so "level k" is the k-th darkest of the four *)
+  && sortedb (map luma_z [mkRgba 0 0 0 255; mkRgba 127 127 127 255; mkRgba 229 229 229 255; mkRgba 255 255 255 255])
+  && (nth 0 gray_codes 0 =? 30)%N && (nth 1 gray_codes 0 =? 90)%N && (nth 2 gray_codes 0 =? 37)%N
+  && (nth 3 gray_codes 0 =? 97)%N && (gray_bg_offset =? 10)%N
   (* the four grey levels stand for luminance 0, 1/3, 2/3, 1 (within 0.01) *)
   && all2 (fun l k => Z.abs (3 * l - k * luma_den) <=? 3 * (luma_den / 100)) gray_levels_z [0; 1; 2; 3].
 
